@@ -9,6 +9,7 @@ import SarpyModel.Drivers.Codec
 import SarpyModel.Drivers.Geo
 import SarpyModel.Drivers.Remap
 import SarpyModel.Drivers.Opener
+import SarpyModel.Drivers.Crsd
 namespace Sarpy.Drivers
 
 def step (line : String) : String :=
@@ -25,6 +26,7 @@ def step (line : String) : String :=
   | "geo" :: rest => (geoStep rest).getD "bad-op"
   | "remap" :: rest => (remapStep rest).getD "bad-op"
   | "opener" :: rest => (openerStep rest).getD "bad-op"
+  | "crsd" :: rest => (crsdStep rest).getD "bad-op"
   | _ => "bad-op"
 
 partial def loop (h : IO.FS.Stream) : IO Unit := do
